@@ -154,4 +154,14 @@ ImplObs(kind, item) ==
 \* design-level: scenarios on which the transcription does not satisfy the property layer
 ImplFailing(kind, item) == ObsFailing(kind, item, ImplObs(kind, item))
 Project(o) == [ok |-> o.ok, prst |-> o.prst, apiType |-> o.apiType, adj |-> o.adj, adjExact |-> o.adjExact, apiChart |-> o.apiChart]
+
+\* ---------------------------------------------------------------- reading a token at one attribute after reading it at another
+(* Several enumerations share XML tokens ("wave" is a preset shape and a pattern, "none" a tick mark, a marker style and a tick-label
+   position, "b" a legend and a data-label position) and are declared on attributes of the same local name (prst, val).  "Maps ... back
+   to itself": a token read through an attribute comes back as the member of THAT attribute's enumeration, whatever was read before in
+   the same process.  Record (all reads of the family happen in one process, in this order):
+     [attr, tok, first (site read just before), site, enum (the enumeration declared at site), ok, gotType, gotTok]                 *)
+CrossNames == <<"ReadIsOfTheAttributesEnumeration">>
+CrossHolds(n, r) == CASE n = "ReadIsOfTheAttributesEnumeration" -> r.ok /\ r.gotType = r.enum /\ r.gotTok = r.tok
+CrossFailing(r) == {CrossNames[i] : i \in {j \in DOMAIN CrossNames : ~CrossHolds(CrossNames[j], r)}}
 =============================================================================
